@@ -634,7 +634,10 @@ func genCall(r *vh.Rng, forceClass string) call {
 		c.Reply = []string{"SB", "BD"}
 	case "gb-mismatch":
 		// random point, or another fixture's point: any real block is served
-		if r.Intn(2) == 0 {
+		if k := r.Intn(3); k == 0 {
+			// right slot, wrong hash
+			c.P = pt{fx.Slot, vh.Hex(r.Bytes(32))}
+		} else if k == 1 {
 			c.P = pt{12345 + uint64(r.Intn(1000)), vh.Hex(r.Bytes(32))}
 			if r.Intn(3) == 0 {
 				c.P.Hash = strings.Repeat("00", 32)
